@@ -27,6 +27,7 @@ func newPersist(bw xkv.Atomic) segment {
 }
 
 func (ps *persist) persist(_ context.Context, br TxRequest) (TxRequest, bool, error) {
-	err := br.commitTo(ps.db)
-	return br, err == nil, nil
+	kept, err := br.commitTo(ps.db)
+	br.Operations = kept
+	return br, err == nil && len(kept) > 0, nil
 }
